@@ -36,6 +36,7 @@ def run(ctx):
     r7_alignment(ctx)
     r8_no_fitted_state(ctx)
     r9_degenerate_shortcuts(ctx)
+    r10_apply_guards(ctx)
 
 
 def r1_window(ctx):
@@ -247,9 +248,18 @@ def r6_statistic_table(ctx):
     gs = ctx.fn(EF, "Scale._get_shift_and_scale")
     SH = name_bound(gs, lambda v: unparse(v) == "self._shift_value(values)", "shift")
     SC = name_bound(gs, lambda v: unparse(v) == f"self._scale_value(values, {SH})", "scale")
-    flt = [x for x in walk_shallow(gs) if isinstance(x, ast.Assign) and unparse(x.targets[0]) == "values" and isinstance(x.value, ast.ListComp)
-           and [unparse(i) for i in x.value.generators[0].ifs] == [f"{unparse(x.value.generators[0].target)} is not None"]]
-    ok = bool(assigned_value(gs, SH)) and bool(assigned_value(gs, SC)) and len(flt) == 1
+    def conds(x):
+        out = []
+        for i in x.value.generators[0].ifs:
+            out += [unparse(v) for v in (i.values if isinstance(i, ast.BoolOp) and isinstance(i.op, ast.And) else [i])]
+        return sorted(out)
+    flt = [x for x in walk_shallow(gs) if isinstance(x, ast.Assign) and unparse(x.targets[0]) == "values" and isinstance(x.value, ast.ListComp)]
+    V_ = unparse(flt[0].value.generators[0].target) if flt else "v"
+    ok = bool(assigned_value(gs, SH)) and bool(assigned_value(gs, SC)) and len(flt) == 1 and f"{V_} is not None" in conds(flt[0])
+    # NaN is a missing value too: it is dropped before fitting (nan != nan), otherwise min/max/sorted-based statistics are poisoned or mis-ordered
+    nan_ok = len(flt) == 1 and any(c in conds(flt[0]) for c in (f"{V_} == {V_}", f"not isnan({V_})", f"not math.isnan({V_})"))
+    ctx.ob("C11.R6", EF, "Scale._get_shift_and_scale", flt[0] if flt else gs, "NaN is dropped together with None before the statistics are fitted", nan_ok,
+           detail={"filter": conds(flt[0]) if flt else None}, stmt="fit ignores NaN")
     ctx.ob("C11.R6", EF, "Scale._get_shift_and_scale", gs, "shift and scale are computed from the same non-missing values, scale knowing the shift", ok, stmt="shift then scale")
     # every scale computation is handed the shift computed just before it from the same values (reaching definitions)
     from ..cfg import CFG
@@ -319,6 +329,30 @@ def r9_degenerate_shortcuts(ctx):
     ctx.ob("C11.R9", ST, "iqr", rets[0] if rets else fn, "iqr is percentile 0.75 minus percentile 0.25", bool(ok and okp), stmt="iqr general path")
 
 
+def r10_apply_guards(ctx):
+    ctx.rule("C11.R10", "dense, sparse and scalar contexts are treated alike when the statistics are applied: Scale re-scales a value only if it is not None in every arm; "
+                        "Impute replaces a missing value only where it has a statistic for the feature (`k in imputations`) in the dense and in the sparse arm")
+    sf = ctx.fn(EF, "Scale.filter")
+    n = 0
+    from ..util import all_guards
+    for st in [x for x in ast.walk(sf) if isinstance(x, ast.Assign) and isinstance(x.value, ast.BinOp) and isinstance(x.value.op, ast.Mult) and "shift" in unparse(x.value) and "scale" in unparse(x.value)]:
+        n += 1
+        val = x_ = st.value.left.left if isinstance(st.value.left, ast.BinOp) else None
+        subj = unparse(val) if val is not None else None
+        ok = subj is not None and any(pol and unparse(t) == f"{subj} is not None" for t, pol in all_guards(st, sf))
+        ctx.ob("C11.R10", EF, "Scale.filter", st, "the value is re-scaled only if it is not None", ok, detail={"value": subj})
+    ctx.floor("C11.R10", "apply statements (x + shift) * scale in Scale.filter", n, 3)
+    imf = ctx.fn(EF, "Impute.filter")
+    m = 0
+    for st in [x for x in ast.walk(imf) if isinstance(x, ast.Assign) and isinstance(x.value, ast.Subscript) and unparse(x.value.value) == "imputations"
+               and isinstance(x.targets[0], ast.Subscript) and unparse(x.targets[0].value) == "context"]:
+        m += 1
+        k = unparse(x.value.slice) if False else unparse(st.value.slice)
+        ok = any(pol and unparse(t) == f"{k} in imputations" for t, pol in all_guards(st, imf)) and any(pol and unparse(t).endswith("is None") for t, pol in all_guards(st, imf))
+        ctx.ob("C11.R10", EF, "Impute.filter", st, "a value is replaced only if it is missing and a statistic exists for its feature", ok, detail={"key": k})
+    ctx.floor("C11.R10", "replacement statements in Impute.filter", m, 2)
+
+
 def r7_alignment(ctx):
     ctx.rule("C11.R7", "statistics stay aligned with their columns: the columns handed to the statistic routine are selected by the same key list, in the same "
                        "order, that the results are zipped/compressed with")
@@ -372,6 +406,9 @@ def _chain(lp):
 
 
 CONTROLS = [
+    ("dense apply does not skip None", EF, M.replace_stmt("Scale.filter", M.text_has("if context[i] is not None: context[i] = (context[i] + shift) * scale"), "context[i] = (context[i] + shift) * scale"), "C11.R10"),
+    ("sparse impute without statistic guard", EF, M.replace_expr("Impute.filter", "v is None and k in imputations", "v is None", nth=1), "C11.R10"),
+    ("fit keeps NaN", EF, M.replace_expr("Scale._get_shift_and_scale", "[v for v in values if v is not None and v == v]", "[v for v in values if v is not None]"), "C11.R6"),
     ("maxabs adds the shift through int.__add__", EF, M.replace_expr("Scale._scale_value", "max((abs(v + shift) for v in values))", "max(map(abs, map(shift.__add__, values)))"), "C11.R6"),
     ("re-fit computes the scale before the shift", EF, M.swap_stmts("Scale._get_shift_and_scale", M.simple_has("shift = self._shift_value(not_nan_vals)"), M.simple_has("scale = self._scale_value(not_nan_vals, shift)")), "C11.R6"),
     ("Scale keeps the first fit", EF, M.replace_stmt("Scale.filter", M.simple_has("scaling_vals = list(map(self._get_shift_and_scale, cols))"),
